@@ -30,6 +30,8 @@ PROFILE = scenario.profile(maxD=3, extra_budget=(10, 60), cons_x0=("margin",), p
                            # rarely used but supported: a user-supplied annealing schedule for the LCB
                            extra_opts=(("search_acq_fcn", ({"__callable__": "lcb_schedule", "k": 0.5}, {"__callable__": "lcb_schedule", "k": 2.0}), 0.2),))
 N = {"quick": 160, "thorough": 3000}
+N_THIN = {"quick": 64, "thorough": 1200}
+THIN_PROFILE = dict(PROFILE, extra_budget=(10, 40))
 N_HEDGE = {"quick": 3000, "thorough": 100000}
 MASK_MAX = {"quick": 300, "thorough": 600}
 
@@ -119,12 +121,25 @@ def run_oracle(scn, tr):
             labs.append("es:winner-from-2nd-generation")
         if n1 == 0:
             labs.append("es:zero-survivors")
+        if n1 and any(z.size == 0 for z in zs[1:]):
+            labs.append("es:later-generation-empty")
+        if 0 < n1 <= 3:
+            labs.append("es:1-3-survivors")
         nt = nt or bool(thin or second)
     return v, evals, nt, sorted(set(labs))
 
 
+@st.composite
+def thinned_cases(draw, prof):
+    """A natural scenario plus a script that cuts the ES populations down to a few or zero survivors: entry n of the
+    script applies to the n-th generation filtered in the run (None = untouched)."""
+    scn = draw(scenario.scenario(prof))
+    scn["es_thin"] = draw(st.lists(st.sampled_from([None, None, 0, 0, 1, 2, 3]), min_size=2, max_size=6))
+    return scn
+
+
 def body_run(scn):
-    tr = harness.run(scn, want=("acq", "es"))
+    tr = harness.run(scn, want=("acq", "es"), es_thin=scn.get("es_thin"))
     v, evals, nt, labs = run_oracle(scn, tr)
     labs = harness.run_labels(scn, tr) + labs + ["run"]
     if nt:
@@ -247,7 +262,7 @@ def body_hedge(case):
 
 
 def plan(tier):
-    return [("mask", 16), ("hedge", 8), ("runs", 16)] + ([("fuzz", 16)] if tier == "thorough" else [])
+    return [("mask", 16), ("hedge", 8), ("runs", 16), ("thinned", 16)] + ([("fuzz", 16)] if tier == "thorough" else [])
 
 
 def run_part(res, part, tier, seed, shard, nshards):
@@ -258,12 +273,14 @@ def run_part(res, part, tier, seed, shard, nshards):
         run_mask(res, tier, shard, nshards)
     elif part == "hedge":
         engine.hyp_sweep(res, hedge_histories(), body_hedge, runlevel.shard_count(N_HEDGE[tier], shard, nshards), seed * 1000 + 700 + shard)
+    elif part == "thinned":
+        runlevel.sweep(res, None, N_THIN[tier], seed, shard, nshards, body_run, strategy=thinned_cases(THIN_PROFILE))
     else:
         runlevel.sweep(res, PROFILE if tier == "quick" else dict(PROFILE, maxD=5, extra_budget=(10, 200)), N[tier], seed, shard, nshards, body_run)
 
 
 def minimise(part, tier, sig, case, seed):
-    if part == "runs":
+    if part in ("runs", "thinned"):
         return runlevel.field_minimise(case, sig, body_run, max_runs=12 if tier == "quick" else 40)
     if part in ("hedge", "fuzz"):
         m = engine.hyp_minimise(hedge_histories(), lambda c: any(engine.signature(x) == sig for x in run_hedge(c)[0]), 4000, seed)
@@ -272,7 +289,7 @@ def minimise(part, tier, sig, case, seed):
 
 
 def replay(part, case):
-    if part == "runs":
+    if part in ("runs", "thinned"):
         return runlevel.replay_body(body_run, case)
     if part in ("hedge", "fuzz"):
         return run_hedge(case)[0]
@@ -283,7 +300,7 @@ def replay(part, case):
 
 
 def floors(tier):
-    return {"run:nontrivial": 10, "hedge:>=5updates": 300}
+    return {"run:nontrivial": 10, "hedge:>=5updates": 300, "es:later-generation-empty": 10, "es:1-3-survivors": 10}
 
 
 def fuzz_entry(entry):
